@@ -231,6 +231,8 @@ def make_txt(shape: Dict[str, Any]) -> Any:
         want2: Dict[bytes, Optional[bytes]] = {b'z': b'9'}
         want2.update({k: v for k, v in want.items() if k != b'z'})
         ctx.check(info2.properties == want2 and info2.decoded_properties == as_text(want2), 'after a TXT update the decoded views still show the old data')
+        info2._set_text(b'')  # the service now advertises no properties at all (the encoding of the empty dictionary)
+        ctx.check(info2.text == b'' and info2.properties == {} and info2.decoded_properties == {}, 'an update to the empty TXT is ignored')
         info3 = ServiceInfo('_http._tcp.local.', 'Alpha._http._tcp.local.')  # resolved later: the application reads the (empty) properties first
         ctx.check(info3.properties == {} and info3.decoded_properties == {}, 'a description without TXT data has properties')
         info3._set_text(text)
